@@ -8,7 +8,10 @@
 
    [render_*] gives the token list for every parenthesisation choice of every expression ([srho]: clause number and
    position -> [rho]); [ast_of_*] is the prescribed tree (typed mirror of Model/Expr.v).
-   Not in this reference grammar (see design/C03.md): SELECT ALL, derived tables, LATERAL, GROUPING SETS, FOR, sub-query expressions, window functions, ON DUPLICATE KEY, MERGE, DDL.
+   GROUP BY also takes GROUPING SETS ( ( a, b ), c, ( ) ); a SELECT may end with the locking clause FOR UPDATE | NO KEY UPDATE |
+   SHARE | KEY SHARE [OF t, ...] [NOWAIT | SKIP LOCKED]; MERGE [INTO] t [[AS] a] USING s [[AS] b] ON cond WHEN ... THEN ... with every
+   documented kind x action pair.
+   Not in this reference grammar (see design/C03.md): SELECT ALL, derived tables, LATERAL, sub-query expressions, window functions, ON DUPLICATE KEY, DDL.
    Definitions only. *)
 From Coq Require Import List String Ascii Bool Arith NArith ZArith DecimalString Decimal.
 From GV Require Import Spec.RefGrammar Model.Expr.
@@ -45,6 +48,15 @@ Definition TyConstraint := TyOther 338.
 Definition TyRollup := TyOther 391.
 Definition TyCube := TyOther 392.
 Definition TyGrouping := TyOther 393.
+Definition TySets := TyOther 394.
+Definition TyMerge := TyOther 370.
+Definition TyDefault := TyOther 336.
+Definition TyKey := TyOther 331.
+Definition TyShare := TyOther 380.
+Definition TyNowait := TyOther 381.
+Definition TySkip := TyOther 382.
+Definition TyLocked := TyOther 383.
+Definition TyOf := TyOther 384.
 
 (* ------------------------------------------------------------------------------------------------ *)
 (* numbers written after LIMIT / OFFSET: the value of a digit string *)
@@ -73,15 +85,23 @@ Record mjoin := MkJoin { j_nat : bool; j_side : jside; j_table : mtable; j_cond 
 Record morder := MkOrder { o_expr : mexpr; o_dir : option bool (* Some true = ASC *); o_nulls : option bool (* Some true = FIRST *) }.
 
 Inductive mitem := IStar | IQStar (table : string) (* t.* *) | IExpr (e : mexpr) (alias : malias).
-Inductive mgroup := GrExpr (e : mexpr) | GrRollup (es : list mexpr) | GrCube (es : list mexpr).   (* e | ROLLUP (..) | CUBE (..) *)
+(* one grouping set: ( e, ... ) - possibly empty - or a column reference written without parentheses *)
+Inductive mgset := GsList (es : list mexpr) | GsBare (e : mexpr).
+Inductive mgroup := GrExpr (e : mexpr) | GrRollup (es : list mexpr) | GrCube (es : list mexpr)   (* e | ROLLUP (..) | CUBE (..) *)
+                  | GrSets (sets : list mgset).                                                  (* GROUPING SETS ( set, ... ) *)
 
 (* FETCH {FIRST | NEXT} n [PERCENT] [ROW | ROWS] {ONLY | WITH TIES} *)
 Record mfetch := MkFetch { ft_next : bool; ft_count : string; ft_percent : bool; ft_rows : option bool (* Some true = ROWS *); ft_ties : bool }.
 
+(* FOR {UPDATE | NO KEY UPDATE | SHARE | KEY SHARE} [OF table, ...] [NOWAIT | SKIP LOCKED] *)
+Inductive mlock := LkUpdate | LkNoKeyUpdate | LkShare | LkKeyShare.
+Inductive mwait := WtNone | WtNowait | WtSkipLocked.
+Record mfor := MkFor { fr_lock : mlock; fr_of : list string; fr_wait : mwait }.
+
 Record mselect := MkSelect {
   s_distinct : bool; s_distinct_on : list mexpr (* DISTINCT ON ( ... ) *); s_items : list mitem; s_from : list mtable; s_joins : list mjoin;
   s_where : option mexpr; s_group : list mgroup; s_having : option mexpr; s_order : list morder;
-  s_limit : option string; s_offset : option string; s_fetch : option mfetch }.
+  s_limit : option string; s_offset : option string; s_fetch : option mfetch; s_for : option mfor }.
 
 Inductive setop := OUnion | OExcept | OIntersect.
 Inductive mquery :=
@@ -96,12 +116,24 @@ Inductive mctarget := CtNone | CtCols (cols : list string) | CtConstraint (name 
 Inductive mcaction := CaNothing | CaUpdate (sets : list (string * mexpr)) (where_ : option mexpr).
 Record mconflict := MkConflict { cf_target : mctarget; cf_action : mcaction }.
 
+(* MERGE [INTO] target [[AS] alias] USING source [[AS] alias] ON cond { WHEN kind [AND cond] THEN action } *)
+Inductive mkind := KMatched | KNotMatched | KNotMatchedBySource.
+Definition mcol := (option string * string)%type.                       (* [qualifier .] column *)
+Inductive maction :=
+  | MaUpdate (sets : list (mcol * mexpr))                               (* UPDATE SET [t.]c = e, ... *)
+  | MaDelete
+  | MaInsert (cols : list string) (vals : option (list mexpr)).         (* INSERT [(cols)] VALUES (e, ...) | DEFAULT VALUES *)
+Record mwhen := MkWhen { wn_kind : mkind; wn_cond : option mexpr; wn_action : maction }.
+Record mmerge := MkMerge { mg_into : bool; mg_target : list string; mg_talias : malias; mg_source : list string;
+                           mg_salias : malias; mg_on : mexpr; mg_whens : list mwhen }.
+
 Inductive mbody :=
   | BQuery (q : mquery)
   | BInsert (table : list string) (cols : list string) (src : list (list mexpr) + mquery) (conflict : option mconflict)
             (returning : list mexpr)
   | BUpdate (table : list string) (sets : list (string * mexpr)) (where_ : option mexpr) (returning : list mexpr)
-  | BDelete (table : list string) (where_ : option mexpr) (returning : list mexpr).
+  | BDelete (table : list string) (where_ : option mexpr) (returning : list mexpr)
+  | BMerge (m : mmerge).
 
 Record mstmt := MkStmt { st_with : option mwith; st_body : mbody }.
 
@@ -110,6 +142,9 @@ Definition srho := nat -> nat -> rho.
 Definition cl_items := 0.  Definition cl_on := 1.  Definition cl_where := 2.  Definition cl_group := 3.
 Definition cl_having := 4. Definition cl_order := 5. Definition cl_values := 6. Definition cl_set := 7.
 Definition cl_returning := 8. Definition cl_don := 9. Definition cl_cset := 10. Definition cl_cwhere := 11.
+(* MERGE: the ON condition (position 0), the AND condition of the k-th WHEN clause (position k), the SET values and the
+   INSERT values of all WHEN clauses (each numbered consecutively through the statement) *)
+Definition cl_mon := 12. Definition cl_mcond := 13. Definition cl_mset := 14. Definition cl_mvals := 15.
 (* the k-th SELECT of a set-operation chain / the k-th CTE body uses a shifted choice function *)
 Definition shift (sr : srho) (k : nat) : srho := fun c i => sr (c + 16 * k) i.
 
@@ -169,12 +204,24 @@ Definition list_clause (kwd : list token) (l : list (list token)) : list token :
 Definition from_toks (l : list mtable) : list token := list_clause [Tk TyFrom "FROM"] (map table_toks l).
 Definition where_toks (sr : srho) (o : option mexpr) : list token := opt_clause [Tk TyWhere "WHERE"] (render 0 (sr cl_where 0)) o.
 (* the expressions of all grouping items are numbered consecutively *)
-Definition group_size (g : mgroup) : nat := match g with GrExpr _ => 1 | GrRollup es | GrCube es => List.length es end.
+Definition gset_size (g : mgset) : nat := match g with GsList es => List.length es | GsBare _ => 1 end.
+Fixpoint gsets_size (l : list mgset) : nat := match l with [] => 0 | g :: tl => gset_size g + gsets_size tl end.
+Definition gset_toks (sr : srho) (i : nat) (g : mgset) : list token :=
+  match g with
+  | GsList es => tLP :: sep_by [tComma] (exprs_toks sr cl_group i es) ++ [tRP]
+  | GsBare e => render 0 (sr cl_group i) e
+  end.
+Fixpoint gsets_toks (sr : srho) (i : nat) (l : list mgset) : list (list token) :=
+  match l with [] => [] | g :: tl => gset_toks sr i g :: gsets_toks sr (i + gset_size g) tl end.
+Definition group_size (g : mgroup) : nat :=
+  match g with GrExpr _ => 1 | GrRollup es | GrCube es => List.length es | GrSets sets => gsets_size sets end.
+(* the tokenizer hands out GROUPING SETS as one keyword token (spelled in upper case) *)
 Definition group_item_toks (sr : srho) (i : nat) (g : mgroup) : list token :=
   match g with
   | GrExpr e => render 0 (sr cl_group i) e
   | GrRollup es => Tk TyRollup "ROLLUP" :: tLP :: sep_by [tComma] (exprs_toks sr cl_group i es) ++ [tRP]
   | GrCube es => Tk TyCube "CUBE" :: tLP :: sep_by [tComma] (exprs_toks sr cl_group i es) ++ [tRP]
+  | GrSets sets => Tk TyKeyword "GROUPING SETS" :: tLP :: sep_by [tComma] (gsets_toks sr i sets) ++ [tRP]
   end.
 Fixpoint groups_toks (sr : srho) (i : nat) (l : list mgroup) : list (list token) :=
   match l with [] => [] | g :: tl => group_item_toks sr i g :: groups_toks sr (i + group_size g) tl end.
@@ -196,13 +243,27 @@ Definition fetch_toks (o : option mfetch) : list token :=
               ++ match ft_rows f with None => [] | Some true => [Tk TyRows "ROWS"] | Some false => [Tk TyRow "ROW"] end
               ++ (if ft_ties f then [Tk TyWith "WITH"; Tk TyTies "TIES"] else [Tk TyOnly "ONLY"])) o.
 
+Definition lock_toks (l : mlock) : list token :=
+  match l with
+  | LkUpdate => [Tk TyUpdate "UPDATE"]
+  | LkNoKeyUpdate => [Tk TyIdent "NO"; Tk TyKey "KEY"; Tk TyUpdate "UPDATE"]      (* NO is not a keyword of the tokenizer *)
+  | LkShare => [Tk TyShare "SHARE"]
+  | LkKeyShare => [Tk TyKey "KEY"; Tk TyShare "SHARE"]
+  end.
+Definition wait_toks (w : mwait) : list token :=
+  match w with WtNone => [] | WtNowait => [Tk TyNowait "NOWAIT"] | WtSkipLocked => [Tk TySkip "SKIP"; Tk TyLocked "LOCKED"] end.
+Definition of_toks (l : list string) : list token := match l with [] => [] | _ => Tk TyOf "OF" :: idents_toks l end.
+Definition for_toks (o : option mfor) : list token :=
+  opt_clause [Tk TyFor "FOR"] (fun f => lock_toks (fr_lock f) ++ of_toks (fr_of f) ++ wait_toks (fr_wait f)) o.
+
 (* everything after the SELECT keyword *)
 Definition select_tail_toks (sr : srho) (s : mselect) : list token :=
   distinct_toks sr (s_distinct s) (s_distinct_on s)
   ++ sep_by [tComma] (items_toks sr 0 (s_items s))
   ++ from_toks (s_from s) ++ joins_toks sr 0 (s_joins s)
   ++ where_toks sr (s_where s) ++ group_toks sr (s_group s) ++ having_toks sr (s_having s)
-  ++ orderby_toks sr (s_order s) ++ limit_toks (s_limit s) ++ offset_toks (s_offset s) ++ fetch_toks (s_fetch s).
+  ++ orderby_toks sr (s_order s) ++ limit_toks (s_limit s) ++ offset_toks (s_offset s) ++ fetch_toks (s_fetch s)
+  ++ for_toks (s_for s).
 Definition render_select (sr : srho) (s : mselect) : list token := Tk TySelect "SELECT" :: select_tail_toks sr s.
 
 Definition setop_tok (op : setop) : token :=
@@ -268,6 +329,46 @@ Definition conflict_toks (sr : srho) (c : option mconflict) : list token :=
           ++ where_toks_at (sr cl_cwhere 0) wh
       end
   end.
+(* MERGE *)
+Definition kind_toks (k : mkind) : list token :=
+  match k with
+  | KMatched => [Tk TyMatched "MATCHED"]
+  | KNotMatched => [Tk TyNot "NOT"; Tk TyMatched "MATCHED"]
+  | KNotMatchedBySource => [Tk TyNot "NOT"; Tk TyMatched "MATCHED"; Tk TyBy "BY"; Tk TySource "SOURCE"]
+  end.
+Definition mcol_toks (c : mcol) : list token :=
+  match c with (None, n) => [Tk TyIdent n] | (Some t, n) => [Tk TyIdent t; tPeriod; Tk TyIdent n] end.
+Fixpoint msets_toks (sr : srho) (i : nat) (l : list (mcol * mexpr)) : list (list token) :=
+  match l with [] => [] | (c, e) :: tl => (mcol_toks c ++ Tk TyEq "=" :: render 0 (sr cl_mset i) e) :: msets_toks sr (S i) tl end.
+(* [is] / [iv]: number of SET values / INSERT values written by the WHEN clauses before this one *)
+Definition action_toks (sr : srho) (is_ iv : nat) (a : maction) : list token :=
+  match a with
+  | MaUpdate sets => Tk TyUpdate "UPDATE" :: Tk TySet "SET" :: sep_by [tComma] (msets_toks sr is_ sets)
+  | MaDelete => [Tk TyDelete "DELETE"]
+  | MaInsert cols vals =>
+      Tk TyInsert "INSERT" :: cols_toks cols
+      ++ match vals with
+         | None => [Tk TyDefault "DEFAULT"; Tk TyValues "VALUES"]
+         | Some vs => Tk TyValues "VALUES" :: tLP :: sep_by [tComma] (exprs_toks sr cl_mvals iv vs) ++ [tRP]
+         end
+  end.
+Definition action_sets (a : maction) : nat := match a with MaUpdate sets => List.length sets | _ => 0 end.
+Definition action_vals (a : maction) : nat := match a with MaInsert _ (Some vs) => List.length vs | _ => 0 end.
+Definition when_toks (sr : srho) (k is_ iv : nat) (w : mwhen) : list token :=
+  Tk TyWhen "WHEN" :: kind_toks (wn_kind w)
+  ++ opt_clause [Tk TyAnd "AND"] (render 0 (sr cl_mcond k)) (wn_cond w)
+  ++ Tk TyThen "THEN" :: action_toks sr is_ iv (wn_action w).
+Fixpoint whens_toks (sr : srho) (k is_ iv : nat) (l : list mwhen) : list token :=
+  match l with
+  | [] => []
+  | w :: tl => when_toks sr k is_ iv w ++ whens_toks sr (S k) (is_ + action_sets (wn_action w)) (iv + action_vals (wn_action w)) tl
+  end.
+Definition merge_toks (sr : srho) (m : mmerge) : list token :=
+  Tk TyMerge "MERGE" :: (if mg_into m then [Tk TyInto "INTO"] else [])
+  ++ path_toks (mg_target m) ++ alias_toks (mg_talias m)
+  ++ Tk TyUsing "USING" :: path_toks (mg_source m) ++ alias_toks (mg_salias m)
+  ++ Tk TyOn "ON" :: render 0 (sr cl_mon 0) (mg_on m) ++ whens_toks sr 0 0 0 (mg_whens m).
+
 Definition render_body (sr : srho) (base : nat) (b : mbody) : list token :=
   match b with
   | BQuery q => render_query sr base q
@@ -284,6 +385,7 @@ Definition render_body (sr : srho) (base : nat) (b : mbody) : list token :=
       ++ where_toks (shift sr base) wh ++ returning_toks (shift sr base) ret
   | BDelete t wh ret =>
       Tk TyDelete "DELETE" :: Tk TyFrom "FROM" :: path_toks t ++ where_toks (shift sr base) wh ++ returning_toks (shift sr base) ret
+  | BMerge m => merge_toks (shift sr base) m
   end.
 Definition render_stmt (sr : srho) (s : mstmt) : list token :=
   with_toks sr (st_with s) ++ render_body sr (with_size (st_with s)) (st_body s).
@@ -329,8 +431,17 @@ Definition ast_of_order (o : morder) : gorder :=
   GOrder (ast_of (o_expr o)) (match o_dir o with Some false => false | _ => true end) (o_nulls o).
 Definition ast_of_fetch (f : mfetch) : gfetch :=
   GFetch (if ft_next f then "NEXT" else "FIRST") (Some (dec_value (ft_count f))) (ft_percent f) (ft_ties f).
+Definition ast_of_gset (g : mgset) : list gexpr := match g with GsList es => map ast_of es | GsBare e => [ast_of e] end.
 Definition ast_of_group (g : mgroup) : gexpr :=
-  match g with GrExpr e => ast_of e | GrRollup es => GRollup (map ast_of es) | GrCube es => GCube (map ast_of es) end.
+  match g with
+  | GrExpr e => ast_of e | GrRollup es => GRollup (map ast_of es) | GrCube es => GCube (map ast_of es)
+  | GrSets sets => GGroupingSets (map ast_of_gset sets)
+  end.
+Definition lock_str (l : mlock) : string :=
+  match l with LkUpdate => "UPDATE" | LkNoKeyUpdate => "NO KEY UPDATE" | LkShare => "SHARE" | LkKeyShare => "KEY SHARE" end.
+Definition ast_of_for (f : mfor) : gfor :=
+  GFor (lock_str (fr_lock f)) (fr_of f) (match fr_wait f with WtNowait => true | _ => false end)
+       (match fr_wait f with WtSkipLocked => true | _ => false end).
 Definition ast_of_select_w (w : option gwith) (s : mselect) : gselect :=
   let from := map ast_of_table (s_from s) in
   GSelect w (s_distinct s) (map ast_of (s_distinct_on s)) (map ast_of_item (s_items s)) from
@@ -338,7 +449,7 @@ Definition ast_of_select_w (w : option gwith) (s : mselect) : gselect :=
           (ast_of_joins (last from (GTable "" "" None false)) 0 (s_joins s))
           (option_map ast_of (s_where s)) (map ast_of_group (s_group s)) (option_map ast_of (s_having s))
           (map ast_of_order (s_order s)) (option_map dec_value (s_limit s)) (option_map dec_value (s_offset s))
-          (option_map ast_of_fetch (s_fetch s)) None.
+          (option_map ast_of_fetch (s_fetch s)) (option_map ast_of_for (s_for s)).
 Definition ast_of_select := ast_of_select_w None.
 Definition setop_str (op : setop) : string := lit (setop_tok op).
 (* a WITH clause in front of a query belongs to its left-most SELECT *)
@@ -359,6 +470,20 @@ Definition ast_of_conflict (c : mconflict) : gconflict :=
             (match cf_action c with CaNothing => true | _ => false end)
             (match cf_action c with CaUpdate sets _ => ast_of_sets sets | _ => [] end)
             (match cf_action c with CaUpdate _ wh => option_map ast_of wh | _ => None end).
+Definition kind_str (k : mkind) : string :=
+  match k with KMatched => "MATCHED" | KNotMatched => "NOT_MATCHED" | KNotMatchedBySource => "NOT_MATCHED_BY_SOURCE" end.
+Definition mcol_str (c : mcol) : string := match c with (None, n) => n | (Some t, n) => t ++ "." ++ n end.
+Definition ast_of_action (a : maction) : gaction :=
+  match a with
+  | MaUpdate sets => GAction "UPDATE" (map (fun ce : mcol * mexpr => (mcol_str (fst ce), ast_of (snd ce))) sets) [] [] false
+  | MaDelete => GAction "DELETE" [] [] [] false
+  | MaInsert cols None => GAction "INSERT" [] cols [] true
+  | MaInsert cols (Some vs) => GAction "INSERT" [] cols (map ast_of vs) false
+  end.
+Definition ast_of_when (w : mwhen) : gwhen := GWhen (kind_str (wn_kind w)) (option_map ast_of (wn_cond w)) (ast_of_action (wn_action w)).
+Definition ast_of_merge (m : mmerge) : gstmt :=
+  GMerge (join_dot (mg_target m)) (alias_name (mg_talias m)) (join_dot (mg_source m)) (alias_name (mg_salias m))
+         (ast_of (mg_on m)) (map ast_of_when (mg_whens m)).
 Definition ast_of_stmt_w (w : option gwith) (b : mbody) : gstmt :=
   match b with
   | BQuery q => ast_of_query_w w q
@@ -369,6 +494,7 @@ Definition ast_of_stmt_w (w : option gwith) (b : mbody) : gstmt :=
               (map ast_of ret) (option_map ast_of_conflict cf) []
   | BUpdate t sets wh ret => GUpdate w (join_dot t) "" (ast_of_sets sets) [] (option_map ast_of wh) (map ast_of ret)
   | BDelete t wh ret => GDelete w (join_dot t) "" [] (option_map ast_of wh) (map ast_of ret)
+  | BMerge m => ast_of_merge m            (* a MERGE statement takes no WITH clause (stmt_ok) *)
   end.
 Definition ast_of_stmt (s : mstmt) : gstmt := ast_of_stmt_w (ast_of_with (st_with s)) (st_body s).
 
@@ -397,10 +523,15 @@ Definition join_ok (j : mjoin) : bool :=
      end.
 Definition order_ok (o : morder) : bool := ref_expr (o_expr o).
 Definition optb {A} (f : A -> bool) (o : option A) : bool := match o with None => true | Some x => f x end.
+(* a grouping set written without parentheses is a column reference (SQL: <grouping column reference>); any expression
+   may stand in a parenthesised set *)
+Definition gset_ok (g : mgset) : bool :=
+  match g with GsList es => forallb ref_expr es | GsBare e => is_column_ref e && ref_expr e end.
 Definition group_ok (g : mgroup) : bool :=
   match g with
   | GrExpr e => ref_expr e
   | GrRollup es | GrCube es => negb (Nat.eqb (List.length es) 0) && forallb ref_expr es
+  | GrSets sets => negb (Nat.eqb (List.length sets) 0) && forallb gset_ok sets
   end.
 Definition select_ok (s : mselect) : bool :=
   (s_distinct s || match s_distinct_on s with [] => true | _ => false end) && forallb ref_expr (s_distinct_on s)
@@ -415,7 +546,7 @@ Definition select_ok (s : mselect) : bool :=
    have, and written after the last operand they belong to the whole query expression, for which the tree has no
    slot (listed known finding `setop-trailing-order-by`): operands carry none of them *)
 Definition plain_operand (s : mselect) : bool :=
-  match s_order s, s_limit s, s_offset s, s_fetch s with [], None, None, None => true | _, _, _, _ => false end.
+  match s_order s, s_limit s, s_offset s, s_fetch s, s_for s with [], None, None, None, None => true | _, _, _, _, _ => false end.
 Fixpoint operands_plain (q : mquery) : bool :=
   match q with QSelect s => plain_operand s | QSetOp l _ _ r => operands_plain l && plain_operand r end.
 Fixpoint query_ok (q : mquery) : bool :=
@@ -424,19 +555,21 @@ Fixpoint query_ok (q : mquery) : bool :=
   | QSetOp l _ _ r => query_ok l && operands_plain l && select_ok r && plain_operand r
   end.
 
+(* the locking clause is read by the text of its words: the token after a SELECT is not spelled OF / NOWAIT / SKIP *)
+Definition for_word (s : string) : bool := eqfold s "OF" || eqfold s "NOWAIT" || eqfold s "SKIP".
 (* what may follow a SELECT: end of input, `;`, `)`, a set operator, RETURNING / ON CONFLICT (of an enclosing INSERT) *)
 Definition sel_stop (t : token) : bool :=
   (isT t TyEOF || isT t TySemicolon || isT t TyRParen || isT t TyUnion || isT t TyExcept || isT t TyIntersect || isT t TyReturning
    || isT t TyOn)
-  && stops 0 t.
+  && stops 0 t && negb (for_word (lit t)).
 Definition sel_follow (stop : list token) : Prop := exists t rest, stop = t :: rest /\ sel_stop t = true.
 (* what may follow a whole query expression: not a set operator *)
 Definition query_stop (t : token) : bool :=
-  (isT t TyEOF || isT t TySemicolon || isT t TyRParen || isT t TyReturning || isT t TyOn) && stops 0 t.
+  (isT t TyEOF || isT t TySemicolon || isT t TyRParen || isT t TyReturning || isT t TyOn) && stops 0 t && negb (for_word (lit t)).
 Definition query_follow (stop : list token) : Prop := exists t rest, stop = t :: rest /\ query_stop t = true.
 (* what may follow a whole statement: end of input, `;`, `)` (the parser also looks at the literal for RETURNING) *)
 Definition stmt_stop (t : token) : bool :=
-  (isT t TyEOF || isT t TySemicolon || isT t TyRParen) && stops 0 t && negb (String.eqb (lit t) "RETURNING").
+  (isT t TyEOF || isT t TySemicolon || isT t TyRParen) && stops 0 t && negb (String.eqb (lit t) "RETURNING") && negb (for_word (lit t)).
 Definition stmt_follow (stop : list token) : Prop := exists t rest, stop = t :: rest /\ stmt_stop t = true.
 
 (* nesting used by the expressions of a SELECT: the largest [pdepth] of its expressions under the choices [sr]
@@ -456,10 +589,17 @@ Fixpoint joins_depth (sr : srho) (i : nat) (l : list mjoin) : nat :=
 Fixpoint orders_depth (sr : srho) (i : nat) (l : list morder) : nat :=
   match l with [] => 0 | o :: tl => Nat.max (pdepth 0 (sr cl_order i) (o_expr o)) (orders_depth sr (S i) tl) end.
 Definition opt_depth (r : rho) (o : option mexpr) : nat := match o with None => 0 | Some e => pdepth 0 r e end.
+Fixpoint gsets_depth (sr : srho) (i : nat) (l : list mgset) : nat :=
+  match l with
+  | [] => 0
+  | g :: tl => Nat.max (match g with GsList es => exprs_depth sr cl_group i es | GsBare e => pdepth 0 (sr cl_group i) e end)
+                       (gsets_depth sr (i + gset_size g) tl)
+  end.
 Fixpoint groups_depth (sr : srho) (i : nat) (l : list mgroup) : nat :=
   match l with
   | [] => 0
-  | g :: tl => Nat.max (match g with GrExpr e => pdepth 0 (sr cl_group i) e | GrRollup es | GrCube es => exprs_depth sr cl_group i es end)
+  | g :: tl => Nat.max (match g with GrExpr e => pdepth 0 (sr cl_group i) e | GrRollup es | GrCube es => exprs_depth sr cl_group i es
+                                | GrSets sets => gsets_depth sr i sets end)
                        (groups_depth sr (i + group_size g) tl)
   end.
 Definition select_depth (sr : srho) (s : mselect) : nat :=
@@ -487,6 +627,22 @@ Definition conflict_ok (c : mconflict) : bool :=
      | CaNothing => true
      | CaUpdate sets wh => negb (Nat.eqb (List.length sets) 0) && forallb (fun ce => ref_expr (snd ce)) sets && optb ref_expr wh
      end.
+(* MERGE: an alias written without AS is not spelled like the keyword that follows it (the parser compares the text); the
+   documented kind x action pairs: MATCHED -> UPDATE | DELETE, NOT MATCHED -> INSERT, NOT MATCHED BY SOURCE -> UPDATE | DELETE *)
+Definition malias_ok (kwd : string) (a : malias) : bool :=
+  match a with Some (false, n) => negb (String.eqb n kwd) | _ => true end.
+Definition action_ok (k : mkind) (a : maction) : bool :=
+  match a with
+  | MaUpdate sets => negb (Nat.eqb (List.length sets) 0) && forallb (fun ce : mcol * mexpr => ref_expr (snd ce)) sets
+                     && match k with KNotMatched => false | _ => true end
+  | MaDelete => match k with KNotMatched => false | _ => true end
+  | MaInsert _ vals => match vals with None => true | Some vs => negb (Nat.eqb (List.length vs) 0) && forallb ref_expr vs end
+                       && match k with KNotMatched => true | _ => false end
+  end.
+Definition when_ok (w : mwhen) : bool := optb ref_expr (wn_cond w) && action_ok (wn_kind w) (wn_action w).
+Definition merge_ok (m : mmerge) : bool :=
+  path_ok (mg_target m) && path_ok (mg_source m) && malias_ok "USING" (mg_talias m) && malias_ok "ON" (mg_salias m)
+  && ref_expr (mg_on m) && negb (Nat.eqb (List.length (mg_whens m)) 0) && forallb when_ok (mg_whens m).
 Definition body_ok (b : mbody) : bool :=
   match b with
   | BQuery q => query_ok q
@@ -500,8 +656,12 @@ Definition body_ok (b : mbody) : bool :=
       path_ok t && negb (Nat.eqb (List.length sets) 0) && forallb (fun ce => ref_expr (snd ce)) sets
       && optb ref_expr wh && forallb ref_expr ret
   | BDelete t wh ret => path_ok t && optb ref_expr wh && forallb ref_expr ret
+  | BMerge m => merge_ok m
   end.
-Definition stmt_ok (s : mstmt) : bool := with_ok (st_with s) && body_ok (st_body s).
+(* the parser has no WITH in front of MERGE *)
+Definition stmt_ok (s : mstmt) : bool :=
+  with_ok (st_with s) && body_ok (st_body s)
+  && match st_body s, st_with s with BMerge _, Some _ => false | _, _ => true end.
 
 (* no alias without AS after a bare column reference anywhere in the statement *)
 Fixpoint query_bare_alias_free (q : mquery) : bool :=
@@ -531,6 +691,22 @@ Definition conflict_depth (sr : srho) (c : option mconflict) : nat :=
   | Some (MkConflict _ (CaUpdate sets wh)) => Nat.max (assign_depth sr cl_cset 0 sets) (opt_depth (sr cl_cwhere 0) wh)
   | _ => 0
   end.
+Fixpoint msets_depth (sr : srho) (i : nat) (l : list (mcol * mexpr)) : nat :=
+  match l with [] => 0 | (_, e) :: tl => Nat.max (pdepth 0 (sr cl_mset i) e) (msets_depth sr (S i) tl) end.
+Definition action_depth (sr : srho) (is_ iv : nat) (a : maction) : nat :=
+  match a with
+  | MaUpdate sets => msets_depth sr is_ sets
+  | MaInsert _ (Some vs) => exprs_depth sr cl_mvals iv vs
+  | _ => 0
+  end.
+Fixpoint whens_depth (sr : srho) (k is_ iv : nat) (l : list mwhen) : nat :=
+  match l with
+  | [] => 0
+  | w :: tl => Nat.max (Nat.max (opt_depth (sr cl_mcond k) (wn_cond w)) (action_depth sr is_ iv (wn_action w)))
+                       (whens_depth sr (S k) (is_ + action_sets (wn_action w)) (iv + action_vals (wn_action w)) tl)
+  end.
+Definition merge_depth (sr : srho) (m : mmerge) : nat :=
+  Nat.max (pdepth 0 (sr cl_mon 0) (mg_on m)) (whens_depth sr 0 0 0 (mg_whens m)).
 Definition body_depth (sr : srho) (base : nat) (b : mbody) : nat :=
   match b with
   | BQuery q => 2 + query_depth sr base q
@@ -542,6 +718,7 @@ Definition body_depth (sr : srho) (base : nat) (b : mbody) : nat :=
       1 + Nat.max (sets_depth (shift sr base) 0 sets)
             (Nat.max (opt_depth (shift sr base cl_where 0) wh) (exprs_depth (shift sr base) cl_returning 0 ret))
   | BDelete _ wh ret => 1 + Nat.max (opt_depth (shift sr base cl_where 0) wh) (exprs_depth (shift sr base) cl_returning 0 ret)
+  | BMerge m => 1 + merge_depth (shift sr base) m
   end.
 Definition stmt_depth (sr : srho) (s : mstmt) : nat :=
   Nat.max (match st_with s with None => 0 | Some w => ctes_depth sr 0 (w_ctes w) end)
@@ -558,7 +735,7 @@ Definition ex_select : mselect :=
     (Some (MBin BOr (MIdent false "a") (MBin BAnd (MIdent false "b") (MNot (MIdent false "c")))))
     [GrExpr (MQIdent "u" "id")] (Some (MBin (BCmp CGt) (MFunc "COUNT" false [MIdent false "x"]) (MNum "1")))
     [MkOrder (MIdent false "n") (Some false) (Some false); MkOrder (MNum "1") None None]
-    (Some "10") (Some "5") (Some (MkFetch true "3" false (Some true) true)).
+    (Some "10") (Some "5") (Some (MkFetch true "3" false (Some true) true)) None.
 Example ex_select_ok : select_ok ex_select = true. Proof. reflexivity. Qed.
 Example ex_select_text :
   map lit (render_select (fun _ _ => no_parens) ex_select)
@@ -569,22 +746,59 @@ Example ex_select_text :
      "ORDER"; "BY"; "n"; "DESC"; "NULLS"; "LAST"; ","; "1"; "LIMIT"; "10"; "OFFSET"; "5"; "FETCH"; "NEXT"; "3"; "ROWS"; "WITH"; "TIES"].
 Proof. reflexivity. Qed.
 
+(* GROUPING SETS and the locking clause *)
+Definition ex_select_lock : mselect :=
+  MkSelect false [] [IExpr (MIdent false "x") None; IExpr (MFunc "SUM" false [MIdent false "v"]) None] [MkTable ["t"] None; MkTable ["u"] None] [] None
+    [GrExpr (MIdent false "x");
+     GrSets [GsList [MIdent false "x"; MBin BAdd (MIdent false "y") (MNum "1")]; GsBare (MQIdent "t" "y"); GsList []; GsList [MIdent false "z"]]]
+    None [] (Some "5") None None (Some (MkFor LkNoKeyUpdate ["t"; "u"] WtSkipLocked)).
+Example ex_select_lock_ok : select_ok ex_select_lock = true. Proof. reflexivity. Qed.
+Example ex_select_lock_text :
+  map lit (render_select (fun _ _ => no_parens) ex_select_lock)
+  = ["SELECT"; "x"; ","; "SUM"; "("; "v"; ")"; "FROM"; "t"; ","; "u"; "GROUP"; "BY"; "x"; ","; "GROUPING SETS"; "(";
+     "("; "x"; ","; "y"; "+"; "1"; ")"; ","; "t"; "."; "y"; ","; "("; ")"; ","; "("; "z"; ")"; ")";
+     "LIMIT"; "5"; "FOR"; "NO"; "KEY"; "UPDATE"; "OF"; "t"; ","; "u"; "SKIP"; "LOCKED"].
+Proof. reflexivity. Qed.
+
 (* a WITH statement over a set operation, and an INSERT ... SELECT ... RETURNING *)
 Definition ex_stmt_with : mstmt :=
   MkStmt (Some (MkWith true [MkCte "c" ["x"; "y"] (Some false)
-                               (QSetOp (QSelect (MkSelect false [] [IExpr (MNum "1") None; IExpr (MNum "2") None] [] [] None [] None [] None None None))
+                               (QSetOp (QSelect (MkSelect false [] [IExpr (MNum "1") None; IExpr (MNum "2") None] [] [] None [] None [] None None None None))
                                        OUnion true
                                        (MkSelect true [MIdent false "x"] [IExpr (MBin BAdd (MIdent false "x") (MNum "1")) None; IExpr (MIdent false "y") None]
-                                                 [MkTable ["c"] None] [] (Some (MBin (BCmp CLt) (MIdent false "x") (MNum "10"))) [GrRollup [MIdent false "x"; MIdent false "y"]; GrExpr (MNum "1")] None [] None None None))]))
+                                                 [MkTable ["c"] None] [] (Some (MBin (BCmp CLt) (MIdent false "x") (MNum "10"))) [GrRollup [MIdent false "x"; MIdent false "y"]; GrExpr (MNum "1")] None [] None None None None))]))
          (BQuery (QSelect ex_select)).
 Definition ex_stmt_insert : mstmt :=
   MkStmt None
     (BInsert ["s"; "t"] ["a"; "b"]
        (inr (QSelect (MkSelect false [] [IExpr (MIdent false "a") None; IExpr (MFunc "f" false [MIdent false "b"]) (Some (true, "fb"))]
-                               [MkTable ["u"] None] [] None [] None [] None None None)))
+                               [MkTable ["u"] None] [] None [] None [] None None None None)))
        (Some (MkConflict (CtCols ["a"]) (CaUpdate [("b", MBin BAdd (MQIdent "excluded" "b") (MNum "1"))] (Some (MBin (BCmp CGt) (MQIdent "t" "a") (MNum "0"))))))
        [MIdent false "a"; MBin BMul (MIdent false "b") (MNum "2")]).
-Example ex_stmts_ok : stmt_ok ex_stmt_with = true /\ stmt_ok ex_stmt_insert = true. Proof. split; reflexivity. Qed.
+(* MERGE with every documented kind x action pair *)
+Definition ex_stmt_merge : mstmt :=
+  MkStmt None
+    (BMerge (MkMerge true ["s"; "t"] (Some (true, "x")) ["u"] (Some (false, "y"))
+               (MBin (BCmp CEq) (MQIdent "x" "id") (MQIdent "y" "id"))
+               [MkWhen KMatched (Some (MBin (BCmp CGt) (MQIdent "y" "v") (MNum "0")))
+                       (MaUpdate [((None, "v"), MBin BAdd (MQIdent "x" "v") (MQIdent "y" "v")); ((Some "x", "n"), MNum "1")]);
+                MkWhen KMatched None MaDelete;
+                MkWhen KNotMatched None (MaInsert ["id"; "v"] (Some [MQIdent "y" "id"; MBin BMul (MQIdent "y" "v") (MNum "2")]));
+                MkWhen KNotMatched (Some (MIsNull (MQIdent "y" "v") false)) (MaInsert [] None);
+                MkWhen KNotMatchedBySource None (MaUpdate [((None, "v"), MNull)]);
+                MkWhen KNotMatchedBySource (Some (MIdent false "old")) MaDelete])).
+Example ex_stmts_ok : stmt_ok ex_stmt_with = true /\ stmt_ok ex_stmt_insert = true /\ stmt_ok ex_stmt_merge = true.
+Proof. repeat split; reflexivity. Qed.
+Example ex_stmt_merge_text :
+  map lit (render_stmt (fun _ _ => no_parens) ex_stmt_merge)
+  = ["MERGE"; "INTO"; "s"; "."; "t"; "AS"; "x"; "USING"; "u"; "y"; "ON"; "x"; "."; "id"; "="; "y"; "."; "id";
+     "WHEN"; "MATCHED"; "AND"; "y"; "."; "v"; ">"; "0"; "THEN"; "UPDATE"; "SET"; "v"; "="; "x"; "."; "v"; "+"; "y"; "."; "v"; ","; "x"; "."; "n"; "="; "1";
+     "WHEN"; "MATCHED"; "THEN"; "DELETE";
+     "WHEN"; "NOT"; "MATCHED"; "THEN"; "INSERT"; "("; "id"; ","; "v"; ")"; "VALUES"; "("; "y"; "."; "id"; ","; "y"; "."; "v"; "*"; "2"; ")";
+     "WHEN"; "NOT"; "MATCHED"; "AND"; "y"; "."; "v"; "IS"; "NULL"; "THEN"; "INSERT"; "DEFAULT"; "VALUES";
+     "WHEN"; "NOT"; "MATCHED"; "BY"; "SOURCE"; "THEN"; "UPDATE"; "SET"; "v"; "="; "NULL";
+     "WHEN"; "NOT"; "MATCHED"; "BY"; "SOURCE"; "AND"; "old"; "THEN"; "DELETE"].
+Proof. reflexivity. Qed.
 Example ex_stmt_insert_text :
   map lit (render_stmt (fun _ _ => no_parens) ex_stmt_insert)
   = ["INSERT"; "INTO"; "s"; "."; "t"; "("; "a"; ","; "b"; ")"; "SELECT"; "a"; ","; "f"; "("; "b"; ")"; "AS"; "fb"; "FROM"; "u";
